@@ -42,7 +42,10 @@ RULE = ("keyorder: all ordered pairs of keys of length <= 2 over {. / 0 - a b 00
         "reads, flush/compact/reopen and four read phases; distinct by data set. "
         "dbscan: per -n one kv.DB with 36-75 user keys (flat, '/'-rooted, first segment below / around / above '__oxia') "
         "written by ProcessWrite, 14 fixed + 10 random ranges x List and RangeScan x 3 phases (memtable, flushed, reopened "
-        "after overwrites/deletes/range deletes), 20 probes x 5 comparison types; distinct by (phase, live keys, range). "
+        "after overwrites/deletes/range deletes), 20 probes x 5 comparison types; distinct by (phase, live keys, range); every 4th data set is "
+        "followed by a scale data set: 300-450 keys under 'A/' and 'users/' (both sides of the internal keys), 8% deleted "
+        "one by one, then delete-range requests holding exactly 100 and {1,99} or {101,200} live keys (counted in the "
+        "reference; DeleteRangeThreshold = 100), each checked in memory and after a flush, all after reopen. "
         "respbatch: all size sequences of length <= 4 over {0,1,B-1,B,B+1} for B=4, then seeded sequences of 0..24 items for "
         "budgets {1,2,5,10,64,1000,2 MiB}, count limit 0 or 1..5, 10% completed with an error; non-trivial = some item "
         "reaches the budget alone, distinct by the whole input")
